@@ -26,4 +26,18 @@ def compiledIn (b : Build) (r : ExternalRef) : Bool := r.cfg.all (·.eval b)
 def allowedStd : List String :=
   ["std::arch::is_x86_feature_detected", "std::arch::is_aarch64_feature_detected"]
 
+/-- cargo's feature resolution: everything a set of requested features switches on (one round per feature of the
+manifest reaches the fixed point) -/
+def featureStep (g : List (String × List String)) (fs : List String) : List String :=
+  fs ++ (g.filter (fun r => fs.contains r.1)).flatMap (·.2)
+
+def featureClosure (g : List (String × List String)) (fs : List String) : List String :=
+  (List.range g.length).foldl (fun acc _ => featureStep g acc) fs
+
+/-- with default features disabled `std` is on only when asked for: no other feature of the manifest switches it on
+(otherwise `default-features = false, features = [f]` silently builds the std flavour, which does not exist for a
+no_std target) -/
+def noFeatureImpliesStd (g : List (String × List String)) : Bool :=
+  g.all (fun r => r.1 == "std" || r.1 == "default" || !(featureClosure g [r.1]).contains "std")
+
 end Cfavml.Spec
